@@ -55,6 +55,9 @@ type Stats struct {
 	BoundaryCalls  int
 	FairKicks      int
 	SimSeconds     float64
+	Pairs          int
+	Selects        int
+	Fallbacks      int
 }
 
 func newStats() *Stats {
@@ -113,6 +116,9 @@ func (st *Stats) addRun(seg *Segment, race bool, out *RunOut) {
 	st.Faults["preempt"] += r.Preempts
 	st.Faults["clock_jump"] += r.ClockJumps
 	st.FairKicks += r.FairKicks
+	st.Pairs += r.Pairs
+	st.Selects += r.Selects
+	st.Fallbacks += r.Fallbacks
 	st.SimSeconds += float64(r.SimNs) / 1e9
 	if seg.MapMode != 0 {
 		st.Faults["map_order"] += r.MapRanges
@@ -425,6 +431,9 @@ func (ck *Checker) writeEvidence(violations int, rule string, extra map[string]a
 		"lock_waits":                          st.LockWaits,
 		"distinct_lock_acquisition_orders":    len(st.LockSigs),
 		"fairness_interventions":              st.FairKicks,
+		"channel_rendezvous_paired":           st.Pairs,
+		"select_choices_made":                 st.Selects,
+		"external_channel_fallbacks":          st.Fallbacks,
 		"capacity_boundary_probes":            ck.probes,
 		"capacity_boundary_groups":            st.BoundaryGroups,
 		"capacity_boundary_calls":             st.BoundaryCalls,
